@@ -104,8 +104,23 @@ def nested_function(nparams):
     return 'template/nested-function-%dparams' % nparams, _program([outer])
 
 
+def abstract_generic_method(kind):
+    """interface / abstract class I { fun <T, U> convert(x: T): U }  and a regular class with a generic method"""
+    T, U = tp.TypeParameter('T'), tp.TypeParameter('U')
+    conv = ast.FunctionDeclaration('convert', [ast.ParameterDeclaration('x', T)], U, None,
+                                   ast.FunctionDeclaration.CLASS_METHOD, is_final=False, type_parameters=[T, U])
+    cls_kind = ast.ClassDeclaration.INTERFACE if kind == 0 else ast.ClassDeclaration.ABSTRACT
+    I = ast.ClassDeclaration('Conv', [], cls_kind, fields=[], functions=[conv], is_final=False)
+    V, W = tp.TypeParameter('V'), tp.TypeParameter('W')
+    ident = ast.FunctionDeclaration('pick', [ast.ParameterDeclaration('a', V), ast.ParameterDeclaration('b', W)], V,
+                                    ast.Variable('a'), ast.FunctionDeclaration.CLASS_METHOD, type_parameters=[V, W])
+    K = ast.ClassDeclaration('Picker', [], ast.ClassDeclaration.REGULAR, fields=[], functions=[ident])
+    return 'template/abstract-generic-method-%s' % ('interface' if kind == 0 else 'abstract'), _program([I, K])
+
+
 def all_templates():
-    out = [nested_function(2), nested_function(4), nested_function(5)]
+    out = [nested_function(2), nested_function(4), nested_function(5), abstract_generic_method(0),
+           abstract_generic_method(1)]
     for f1 in (0, 1):
         for f2 in (0, 1):
             for full in (0, 1):
